@@ -32,6 +32,7 @@ const greeting = "* OK [CAPABILITY IMAP4rev1 IMAP4rev2 LITERAL- ESEARCH SORT THR
 var tagOf = map[string]string{}
 
 type observed struct {
+	closeErr  error
 	running   int
 	mu        sync.Mutex
 	viol      []string // "class|detail"
@@ -412,6 +413,7 @@ func feed(w *hx.W, class, desc string, stream []byte, withCommands bool) (alloc 
 	case <-time.After(60 * time.Second):
 		o.add("close-hangs", "Client.Close did not return")
 	}
+	o.closeErr = cerr
 	if cerr != nil && strings.Contains(cerr.Error(), "panic reading response") {
 		o.add("reader-panic@"+hx.PanicSite(cerr.Error()), strings.SplitN(cerr.Error(), "\n", 2)[0])
 	}
@@ -782,42 +784,102 @@ func minInt(a, b int) int {
 
 func invariantProbes() map[string]string {
 	return map[string]string{
-		"fetch-seq-0":          "* 0 FETCH (FLAGS (\\Seen))\r\n",
-		"fetch-seq-0-uid":      "* 0 FETCH (UID 4 FLAGS ())\r\n",
-		"fetch-uid-0":          "* 1 FETCH (UID 0 FLAGS ())\r\n",
-		"expunge-0":            "* 0 EXPUNGE\r\n",
-		"search-0":             "* SEARCH 0 3\r\n",
-		"search-0-only":        "* SEARCH 0\r\n",
-		"esearch-all-dynamic":  "* ESEARCH (TAG \"" + tag("UIDSEARCH") + "\") UID ALL 1:*\r\n",
-		"esearch-all-star":     "* ESEARCH (TAG \"" + tag("UIDSEARCH") + "\") UID ALL *\r\n",
-		"esearch-all-searchres": "* ESEARCH (TAG \"" + tag("UIDSEARCH") + "\") UID ALL $\r\n",
-		"esearch-all-0":        "* ESEARCH (TAG \"" + tag("SEARCH") + "\") ALL 0\r\n",
-		"sort-0":               "* SORT 2 0 1\r\n",
-		"thread-0":             "* THREAD (0 1)(2)\r\n",
-		"appenduid-0":          tag("APPEND") + " OK [APPENDUID 1 0] done\r\n",
-		"copyuid-dynamic":      tag("COPY") + " OK [COPYUID 1 1:* 5] done\r\n",
-		"copyuid-0":            tag("COPY") + " OK [COPYUID 1 0 5] done\r\n",
-		"copyuid-searchres":    tag("COPY") + " OK [COPYUID 1 $ $] done\r\n",
-		"move-copyuid-dynamic": "* OK [COPYUID 1 3:* 9] moved\r\n",
-		"body-nil":             "* 1 FETCH (BODY[] NIL)\r\n",
-		"body-nil-unsolicited": "* 7 FETCH (UID 99999 BODY[] NIL BODY[1] NIL)\r\n",
-		"binary-nil":           "* 1 FETCH (BINARY[1] NIL)\r\n",
-		"literal-overflow":     "* 1 FETCH (BODY[] {9223372036854775807}\r\nabc",
-		"literal-negative":     "* 1 FETCH (BODY[] {-1}\r\nabc)\r\n",
-		"literal-huge-number":  "* 1 FETCH (BODY[] {99999999999999999999}\r\nabc)\r\n",
-		"exists-overflow":      "* 4294967296 EXISTS\r\n",
-		"status-nil-mailbox":   "* STATUS NIL (MESSAGES 1)\r\n",
-		"list-bad-utf7":        "* LIST () \"/\" \"&AAAA\"\r\n",
-		"mpart-no-children":    "* 1 FETCH (BODYSTRUCTURE (\"mixed\"))\r\n",
-		"mpart-empty":          "* 1 FETCH (BODYSTRUCTURE ())\r\n",
-		"bodystructure-nil":    "* 1 FETCH (BODYSTRUCTURE NIL)\r\n",
-		"envelope-short":       "* 1 FETCH (ENVELOPE (NIL NIL))\r\n",
-		"unknown-tag":          "T999 OK done\r\n",
+		"fetch-seq-0":            "* 0 FETCH (FLAGS (\\Seen))\r\n",
+		"fetch-seq-0-uid":        "* 0 FETCH (UID 4 FLAGS ())\r\n",
+		"fetch-uid-0":            "* 1 FETCH (UID 0 FLAGS ())\r\n",
+		"expunge-0":              "* 0 EXPUNGE\r\n",
+		"search-0":               "* SEARCH 0 3\r\n",
+		"search-0-only":          "* SEARCH 0\r\n",
+		"esearch-all-dynamic":    "* ESEARCH (TAG \"" + tag("UIDSEARCH") + "\") UID ALL 1:*\r\n",
+		"esearch-all-star":       "* ESEARCH (TAG \"" + tag("UIDSEARCH") + "\") UID ALL *\r\n",
+		"esearch-all-searchres":  "* ESEARCH (TAG \"" + tag("UIDSEARCH") + "\") UID ALL $\r\n",
+		"esearch-all-0":          "* ESEARCH (TAG \"" + tag("SEARCH") + "\") ALL 0\r\n",
+		"sort-0":                 "* SORT 2 0 1\r\n",
+		"thread-0":               "* THREAD (0 1)(2)\r\n",
+		"appenduid-0":            tag("APPEND") + " OK [APPENDUID 1 0] done\r\n",
+		"copyuid-dynamic":        tag("COPY") + " OK [COPYUID 1 1:* 5] done\r\n",
+		"copyuid-0":              tag("COPY") + " OK [COPYUID 1 0 5] done\r\n",
+		"copyuid-searchres":      tag("COPY") + " OK [COPYUID 1 $ $] done\r\n",
+		"move-copyuid-dynamic":   "* OK [COPYUID 1 3:* 9] moved\r\n",
+		"body-nil":               "* 1 FETCH (BODY[] NIL)\r\n",
+		"body-nil-unsolicited":   "* 7 FETCH (UID 99999 BODY[] NIL BODY[1] NIL)\r\n",
+		"binary-nil":             "* 1 FETCH (BINARY[1] NIL)\r\n",
+		"literal-overflow":       "* 1 FETCH (BODY[] {9223372036854775807}\r\nabc",
+		"literal-negative":       "* 1 FETCH (BODY[] {-1}\r\nabc)\r\n",
+		"literal-huge-number":    "* 1 FETCH (BODY[] {99999999999999999999}\r\nabc)\r\n",
+		"exists-overflow":        "* 4294967296 EXISTS\r\n",
+		"status-nil-mailbox":     "* STATUS NIL (MESSAGES 1)\r\n",
+		"list-bad-utf7":          "* LIST () \"/\" \"&AAAA\"\r\n",
+		"mpart-no-children":      "* 1 FETCH (BODYSTRUCTURE (\"mixed\"))\r\n",
+		"mpart-empty":            "* 1 FETCH (BODYSTRUCTURE ())\r\n",
+		"bodystructure-nil":      "* 1 FETCH (BODYSTRUCTURE NIL)\r\n",
+		"envelope-short":         "* 1 FETCH (ENVELOPE (NIL NIL))\r\n",
+		"unknown-tag":            "T999 OK done\r\n",
 		"continuation-unmatched": "+ go\r\n",
-		"quota-odd":            "* QUOTA \"\" (STORAGE 1)\r\n* QUOTA \"\" ()\r\n",
-		"metadata-unsolicited": "* METADATA INBOX /a /b /c\r\n",
-		"tagged-twice":         tag("STATUS") + " OK a\r\n" + tag("STATUS") + " OK b\r\n",
+		"quota-odd":              "* QUOTA \"\" (STORAGE 1)\r\n* QUOTA \"\" ()\r\n",
+		"metadata-unsolicited":   "* METADATA INBOX /a /b /c\r\n",
+		"tagged-twice":           tag("STATUS") + " OK a\r\n" + tag("STATUS") + " OK b\r\n",
 	}
+}
+
+// mustReject: streams that violate the grammar in a way the property names (overflowing
+// numbers, over-deep nesting, malformed literals): the client must report a protocol
+// error (Client.Close returns the reader's error) instead of delivering data.
+func mustReject() map[string]string {
+	rep := strings.Repeat
+	m := map[string]string{}
+	over32 := []string{"4294967296", "4294967298", "9999999999", "18446744073709551615", "18446744073709551616", "99999999999999999999999"}
+	for i, n := range over32 {
+		k := fmt.Sprint(i)
+		m["overflow/search-"+k] = "* SEARCH " + n + "\r\n"
+		m["overflow/sort-"+k] = "* SORT 1 " + n + "\r\n"
+		m["overflow/thread-"+k] = "* THREAD (1 " + n + ")\r\n"
+		m["overflow/fetch-uid-"+k] = "* 1 FETCH (UID " + n + ")\r\n"
+		m["overflow/fetch-seq-"+k] = "* " + n + " FETCH (FLAGS ())\r\n"
+		m["overflow/exists-"+k] = "* " + n + " EXISTS\r\n"
+		m["overflow/expunge-"+k] = "* " + n + " EXPUNGE\r\n"
+		m["overflow/status-messages-"+k] = "* STATUS INBOX (MESSAGES " + n + ")\r\n"
+		m["overflow/status-uidnext-"+k] = "* STATUS INBOX (UIDNEXT " + n + ")\r\n"
+		m["overflow/status-uidvalidity-"+k] = "* STATUS INBOX (UIDVALIDITY " + n + ")\r\n"
+		m["overflow/status-unseen-"+k] = "* STATUS INBOX (UNSEEN " + n + ")\r\n"
+		m["overflow/esearch-min-"+k] = "* ESEARCH (TAG \"" + tag("UIDSEARCH") + "\") UID MIN " + n + "\r\n"
+		m["overflow/esearch-count-"+k] = "* ESEARCH (TAG \"" + tag("UIDSEARCH") + "\") UID COUNT " + n + "\r\n"
+		m["overflow/esearch-all-"+k] = "* ESEARCH (TAG \"" + tag("UIDSEARCH") + "\") UID ALL 1:" + n + "\r\n"
+		m["overflow/appenduid-"+k] = tag("APPEND") + " OK [APPENDUID 1 " + n + "] done\r\n"
+		m["overflow/appenduid-validity-"+k] = tag("APPEND") + " OK [APPENDUID " + n + " 5] done\r\n"
+		m["overflow/copyuid-"+k] = tag("COPY") + " OK [COPYUID 1 " + n + " 5] done\r\n"
+		m["overflow/uidnext-code-"+k] = "* OK [UIDNEXT " + n + "] x\r\n"
+		m["overflow/uidvalidity-code-"+k] = "* OK [UIDVALIDITY " + n + "] x\r\n"
+		m["overflow/bodystructure-size-"+k] = "* 1 FETCH (BODYSTRUCTURE (\"text\" \"plain\" NIL NIL NIL \"7bit\" " + n + " 1))\r\n"
+		m["overflow/binary-size-"+k] = "* 1 FETCH (BINARY.SIZE[1] " + n + ")\r\n"
+		m["overflow/quota-"+k] = "* QUOTA \"\" (STORAGE " + "99999999999999999999" + " 1)\r\n"
+	}
+	for i, n := range []string{"9223372036854775808", "18446744073709551616", "99999999999999999999999"} {
+		k := fmt.Sprint(i)
+		m["overflow64/rfc822size-"+k] = "* 1 FETCH (RFC822.SIZE " + n + ")\r\n"
+		m["overflow64/literal-size-"+k] = "* 1 FETCH (BODY[] {" + n + "}\r\nabc)\r\n"
+		m["overflow64/status-size-"+k] = "* STATUS INBOX (SIZE " + n + ")\r\n"
+	}
+	m["overflow64/modseq"] = "* 1 FETCH (MODSEQ (18446744073709551616))\r\n"
+	// nesting beyond the decoder's cap, with different token kinds between the parentheses
+	for _, d := range []int{1001, 5000} {
+		k := fmt.Sprint(d)
+		m["depth/ext-value-"+k] = "* LIST () \"/\" x (\"X\" " + rep("(", d) + "1" + rep(")", d) + ")\r\n"
+		m["depth/ext-value-literals-"+k] = "* LIST () \"/\" x (\"X\" " + rep("({1}\r\nx ", d) + "1" + rep(")", d) + ")\r\n"
+		m["depth/ext-value-quoted-"+k] = "* LIST () \"/\" x (\"X\" " + rep("(\"q\" ", d) + "1" + rep(")", d) + ")\r\n"
+		m["depth/esearch-ext-literals-"+k] = "* ESEARCH (TAG \"" + tag("UIDSEARCH") + "\") UID X-EXT " + rep("({1}\r\nx ", d) + "1" + rep(")", d) + "\r\n"
+		m["depth/namespace-ext-literals-"+k] = "* NAMESPACE ((\"\" \"/\" \"X\" " + rep("({1}\r\nx ", d) + "\"v\"" + rep(")", d) + ")) NIL NIL\r\n"
+		m["depth/bodystructure-ext-literals-"+k] = "* 1 FETCH (BODYSTRUCTURE (\"text\" \"plain\" NIL NIL NIL \"7bit\" 1 1 NIL NIL NIL NIL " + rep("({1}\r\nx ", d) + "1" + rep(")", d) + "))\r\n"
+		m["depth/thread-"+k] = "* THREAD " + rep("(1 ", d) + "(2)" + rep(")", d) + "\r\n"
+		m["depth/bodystructure-mpart-"+k] = "* 1 FETCH (BODYSTRUCTURE " + rep("(", d) + "(\"text\" \"plain\" NIL NIL NIL \"7bit\" 1 1)" + rep(" \"mixed\")", d) + ")\r\n"
+	}
+	m["literal/negative"] = "* 1 FETCH (BODY[] {-1}\r\nabc)\r\n"
+	m["literal/no-crlf"] = "* 1 FETCH (BODY[] {3}abc)\r\n"
+	m["literal/plus-from-server"] = "* 1 FETCH (BODY[] {3+}\r\nabc)\r\n"
+	m["number/leading-minus"] = "* SEARCH -5\r\n"
+	m["number/hex"] = "* SEARCH 0x10\r\n"
+	m["set/copyuid-garbage"] = tag("COPY") + " OK [COPYUID 1 1:: 5] done\r\n"
+	return m
 }
 
 type family struct {
@@ -878,13 +940,18 @@ func families() []family {
 func deepProbes() map[string]func(n int) string {
 	rep := strings.Repeat
 	return map[string]func(n int) string{
-		"bodystructure-deep":   func(n int) string { return "* 1 FETCH (BODYSTRUCTURE " + rep("(", n) + "\r\n" },
-		"thread-deep":          func(n int) string { return "* THREAD " + rep("(1 ", n) + "\r\n" },
-		"ext-value-deep":       func(n int) string { return "* LIST () \"/\" x (\"X\" " + rep("(", n) + "\r\n" },
-		"namespace-deep":       func(n int) string { return "* NAMESPACE ((\"\" \"/\" \"X\" " + rep("(", n) + "\r\n" },
-		"body-message-deep":    func(n int) string { return "* 1 FETCH (BODY " + rep(`("message" "rfc822" NIL NIL NIL "7bit" 1 (NIL NIL NIL NIL NIL NIL NIL NIL NIL NIL) `, n) + "\r\n" },
-		"status-unknown-deep":  func(n int) string { return "* STATUS x (X-Y " + rep("(", n) + "\r\n" },
-		"esearch-unknown-deep": func(n int) string { return "* ESEARCH X-Y " + rep("(", n) + "\r\n" },
+		"bodystructure-deep": func(n int) string { return "* 1 FETCH (BODYSTRUCTURE " + rep("(", n) + "\r\n" },
+		"thread-deep":        func(n int) string { return "* THREAD " + rep("(1 ", n) + "\r\n" },
+		"ext-value-deep":     func(n int) string { return "* LIST () \"/\" x (\"X\" " + rep("(", n) + "\r\n" },
+		"namespace-deep":     func(n int) string { return "* NAMESPACE ((\"\" \"/\" \"X\" " + rep("(", n) + "\r\n" },
+		"body-message-deep": func(n int) string {
+			return "* 1 FETCH (BODY " + rep(`("message" "rfc822" NIL NIL NIL "7bit" 1 (NIL NIL NIL NIL NIL NIL NIL NIL NIL NIL) `, n) + "\r\n"
+		},
+		"status-unknown-deep":     func(n int) string { return "* STATUS x (X-Y " + rep("(", n) + "\r\n" },
+		"esearch-unknown-deep":    func(n int) string { return "* ESEARCH X-Y " + rep("(", n) + "\r\n" },
+		"ext-value-deep-literals": func(n int) string { return "* LIST () \"/\" x (\"X\" " + rep("({1}\r\nx ", n) + "\r\n" },
+		"ext-value-deep-quoted":   func(n int) string { return "* LIST () \"/\" x (\"X\" " + rep("(\"q\" ", n) + "\r\n" },
+		"esearch-deep-literals":   func(n int) string { return "* ESEARCH X-Y " + rep("({1}\r\nx ", n) + "\r\n" },
 	}
 }
 
@@ -907,6 +974,25 @@ func body(w *hx.W) {
 		_, o2 := feed(w, "probe-unsolicited/"+name, name, []byte(s), false)
 		report(w, "probe-unsolicited/"+name, name, []byte(s), o2)
 		w.CaseStr("probe-unsolicited:" + name)
+	}
+	// 1b. malformed data that must be reported as an error
+	for name, s := range mustReject() {
+		i++
+		if !w.Mine(i) {
+			continue
+		}
+		stream := []byte(s + allOK())
+		_, o := feed(w, "must-reject/"+name, name, stream, true)
+		report(w, "must-reject/"+name, name, stream[:minInt(len(stream), 400)], o)
+		if o.closeErr == nil {
+			cls := name
+			if j := strings.LastIndexByte(cls, '-'); j > 0 && strings.HasPrefix(cls, "overflow") {
+				cls = cls[:j]
+			}
+			w.Violation("malformed-data-accepted@"+cls, fmt.Sprintf("stream %s was parsed without any protocol error (Client.Close returned nil): malformed data (%s) was accepted instead of being reported", hx.Hex(stream[:minInt(len(stream), 160)], 200), name), map[string]interface{}{"probe": name})
+		}
+		w.CaseStr("must-reject:" + name)
+		w.Class("must-reject/" + strings.SplitN(name, "/", 2)[0])
 	}
 	// 2. grammar-generated streams and mutations
 	n := w.Pick(2500, 120000)
@@ -1004,7 +1090,7 @@ func main() {
 	hx.Main(hx.Spec{
 		ID:    "C11",
 		Level: "exploration",
-		Rule: "server byte streams fed to a client with 20 pending commands of every kind: targeted invariant probes (zero sequence numbers / UIDs, dynamic sets, NIL bodies, overflowing literals, ...), grammar-generated responses of every kind the client parses (status + codes, CAPABILITY, ENABLED, LIST, STATUS, FETCH incl. ENVELOPE/BODYSTRUCTURE, SEARCH, ESEARCH, SORT, THREAD, QUOTA, QUOTAROOT, METADATA, NAMESPACE, '+') with boundary numbers, byte/token mutations of them, raw garbage, 16 scaling families (N doubled three times) and deep-nesting probes up to 10^6 levels; distinct by hash of the stream",
+		Rule:  "server byte streams fed to a client with 20 pending commands of every kind: targeted invariant probes (zero sequence numbers / UIDs, dynamic sets, NIL bodies, overflowing literals, ...), grammar-generated responses of every kind the client parses (status + codes, CAPABILITY, ENABLED, LIST, STATUS, FETCH incl. ENVELOPE/BODYSTRUCTURE, SEARCH, ESEARCH, SORT, THREAD, QUOTA, QUOTAROOT, METADATA, NAMESPACE, '+') with boundary numbers, byte/token mutations of them, raw garbage, 16 scaling families (N doubled three times) and deep-nesting probes up to 10^6 levels; distinct by hash of the stream",
 		Assumptions: []string{
 			"every returned value is walked with every accessor under recover(); accessors that enumerate a number set are only called when its span is <= 2*10^6 (the span family measures their cost separately)",
 			"growth is judged on deterministic allocation counters (runtime.MemStats.TotalAlloc) per input byte over an 8x range of N, never on time",
